@@ -55,3 +55,33 @@ func (z *VerifZW) FramePV(i int) []tak.Move {
 	}
 	return append([]tak.Move{}, z.M.stack[i].pv[:]...)
 }
+
+// VerifSortMovesBuf runs the real sortMoves on a bare generator holding ms, with the scratch buffer `f.vals` prepared:
+// mode 0: slice nil, alloc zeroed; 1: slice nil, alloc filled with fill; 2: slice non-nil, dirty, 3 longer than ms;
+// 3: slice non-nil, dirty, one shorter than ms (empty for an empty ms): `make` is taken.
+func VerifSortMovesBuf(history map[tak.Move]int, ms []tak.Move, mode, fill int) []tak.Move {
+	m := &MinimaxAI{history: history}
+	f := &frame{}
+	switch mode {
+	case 1:
+		for i := range f.vals.alloc {
+			f.vals.alloc[i] = fill
+		}
+	case 2, 3:
+		n := len(ms) + 3
+		if mode == 3 {
+			n = len(ms) - 1
+			if n < 0 {
+				n = 0
+			}
+		}
+		f.vals.slice = make([]int, n)
+		for i := range f.vals.slice {
+			f.vals.slice[i] = fill
+		}
+	}
+	mg := &moveGenerator{ai: m, f: f}
+	mg.ms = append(make([]tak.Move, 0, len(ms)+1), ms...)
+	mg.sortMoves()
+	return mg.ms
+}
